@@ -181,10 +181,19 @@ def make_dyn(present):
     return Dyn
 
 
-def gen3():
-    yield 1
-    yield (2, "two")
-    yield 3
+GEN_GOOD = [None]
+
+
+def gen3(good=None):
+    if good is None:
+        yield 1
+        yield (2, "two")
+        yield 3
+        return
+    # a generator that fails part-way: `good` elements, then an exception (afterwards it is finished, as every generator is)
+    for i in range(good):
+        yield (i, "g")
+    raise ValueError("generator failed after %d" % good)
 
 
 def snapshot(o, depth=0):
@@ -426,7 +435,8 @@ def make_target(kind, w):
     if kind == "iterator":
         return iter(([1, "a", (2, 3), None, 5, 6, 7] + list(range(100, 100 + w.draw(40))))[:w.draw(48)]), [0]
     if kind == "generator":
-        return gen3(), [0]
+        GEN_GOOD[0] = w.pick((None, None, 0, 1, 2, 3, 5, 8, 13))
+        return gen3(GEN_GOOD[0]), [0]
     if kind == "bytesio":
         return io.BytesIO(b"hello\nworld\n"), [0]
     if kind == "dyn":
@@ -469,7 +479,7 @@ def run_one(choices, params):
             items = [w.draw(7), "s", (1, 2)][:w.draw(4)]
             target, twin, other_twin = Kt(items), Kw(items), [0]
         elif kind == "generator":
-            twin, other_twin = gen3(), [0]
+            twin, other_twin = gen3(GEN_GOOD[0]), [0]
         elif kind == "iterator":
             twin, other_twin = iter(list(target.__reduce__()[1][0])[:]), [0]
             target = iter(list(target.__reduce__()[1][0])[:])
